@@ -635,7 +635,7 @@ pub fn check(prop: &str, tier: &str) -> i32 {
         eprintln!("harness error: no run completed");
         return 2;
     }
-    if exit_code == 0 {
+    if exit_code == 0 && std::env::var("ORXSIM_DEFER_OK").is_err() {
         println!("OK property={prop} held on everything explored");
     }
     exit_code
